@@ -738,6 +738,34 @@ type vpLSpendPlan struct {
 
 // DrawSpend picks 1..maxIn free spendable outputs of one asset and splits
 // their sum over 1..maxOut new script outputs; signer sets meet each threshold.
+// StepWide finalizes one transfer that splits a free spendable output into
+// 70..256 outputs (unit amounts, the remainder on the last one), so that the
+// ledger holds outputs at indexes far above the usual 0..3. Returns the number
+// of outputs made (0 when no output is rich enough).
+func (l *vpLedger) StepWide(t *rapid.T) int {
+	w := rapid.OneOf(rapid.IntRange(70, 256), rapid.SampledFrom([]int{65, 66, 129, 255, 256})).Draw(t, "wide_outputs")
+	for _, u := range l.Unspent(nil, true, true) {
+		if u.Type != common.OutputTypeScript || vpLBig(u.Amount).Cmp(big.NewInt(int64(w))) < 0 {
+			continue
+		}
+		unit := vpLInt(big.NewInt(1))
+		var outs []vpLOut
+		for i := 0; i < w-1; i++ {
+			outs = append(outs, vpLOut{Type: common.OutputTypeScript, Owners: []int{i % 2}, Threshold: 1, Amount: unit})
+		}
+		rest := new(big.Int).Sub(vpLBig(u.Amount), big.NewInt(int64(w-1)))
+		outs = append(outs, vpLOut{Type: common.OutputTypeScript, Owners: []int{0}, Threshold: 1, Amount: vpLInt(rest)})
+		tx := l.BuildSpend(u.Asset, []*vpLUTXO{u}, outs, nil, nil)
+		ver := l.SignMaps(tx, []*vpLUTXO{u}, [][]int{l.DrawSigners(t, u, true)})
+		if err := l.Admit(ver, l.Tick(10), "transfer"); err != nil {
+			t.Fatalf("wide split of %s: %v", u.id(), err)
+		}
+		l.FinalizeOne(t, []crypto.Hash{ver.PayloadHash()})
+		return w
+	}
+	return 0
+}
+
 func (l *vpLedger) DrawSpend(t *rapid.T, maxIn, maxOut int) *vpLSpendPlan {
 	return l.DrawSpendOf(t, maxIn, maxOut, false)
 }
